@@ -281,9 +281,12 @@ class SequenceIndexLoop(LoopSpec):
         lo, hi, default = self.bounds(L, st)
         if default:
             return bs.list_index(B, x)
-        if hi is None:
-            raise Unsupported("Sequence.index with a start but stop=None")
-        return bs.list_index_in(B, x, VInt(lo), VInt(hi))
+        return bs.list_index_in(B, x, VInt(lo), VInt(self.hi_term(hi, B)))
+
+    @staticmethod
+    def hi_term(hi, B):
+        """stop=None: the search runs to the end of the list."""
+        return bs.list_len(B) if hi is None else hi
 
     def prepare(self, L, st):
         from pyvc.loops import param_name
@@ -348,7 +351,7 @@ class SequenceIndexLoop(LoopSpec):
             if default:
                 eqs += [bs.list_index(B, x) == bs.list_index(t, x), bs.list_contains(B, x) == bs.list_contains(t, x)]
             else:
-                LO, HI = VInt(lo), VInt(hi)
+                LO, HI = VInt(lo), VInt(self.hi_term(hi, B))
                 eqs += [bs.list_index_in(B, x, LO, HI) == bs.list_index_in(t, x, LO, HI),
                         bs.list_contains_in(B, x, LO, HI) == bs.list_contains_in(t, x, LO, HI)]
             out.append(z3.Implies(B == t, z3.And(*eqs)))
@@ -359,7 +362,7 @@ class SequenceIndexLoop(LoopSpec):
         lo, hi, default = self.bounds(L, st)
         if default:
             return index_axioms(B, x, idxs) + contains_axioms(B, x, idxs if all_idxs else [])
-        return index_in_axioms(B, x, lo, hi, idxs)
+        return index_in_axioms(B, x, lo, self.hi_term(hi, B), idxs)
 
     def iteration_facts(self, L, st, i_unused):
         E, me, n, x, R0, B, info = self.parts(L, st)
